@@ -10,12 +10,12 @@ package rules
 // Nothing of /repo is executed: this evaluates condition *syntax* over an abstract domain.
 
 import (
-	"os"
 	"fmt"
 	"go/ast"
 	"go/constant"
 	"go/token"
 	"go/types"
+	"os"
 	"sort"
 	"strings"
 
